@@ -261,7 +261,9 @@ fn judge_single(acc: &mut Acc, v: &V, what: &str) {
 					if !o.ok {
 						acc.t.bad("toml-bytes-written-for-refused-document", single_case(src, &bytes, reader, false), format!("{what}: {} refused ({}) but wrote {}", show(&bytes), o.err, show(&o.out)));
 					} else {
-						acc.toml.push(None, o.out, format!("{what} from {}", src.name()), single_case(src, &bytes, reader, true));
+						// whatever xt chose to write must still read back as the input value (binary, non-string
+						// keys etc. have no TOML form, so a successful run is only right if it finds one)
+						acc.toml.push(Some(v.toml_reordered().dump()), o.out, format!("{what} from {} (outside the common model)", src.name()), single_case(src, &bytes, reader, true));
 					}
 				}
 			}
